@@ -301,6 +301,10 @@ def Stack.setAtScope (st : Stack) (x : String) (v : DV) : Res Stack :=
     | some b => if b.ty.admits v then pure (Frame.update f x v :: rest) else throw .raise
     | none => pure ((f ++ [{ name := x, ty := .any, val := v }]) :: rest)
 
+/-- A loop variable that may not be there (`for (k in m)` binds no value). -/
+def Stack.setOpt (st : Stack) (x : Option String) (v : DV) : Res Stack :=
+  match x with | some x => st.setAtScope x v | none => pure st
+
 /-- `unset x`: the nearest binding keeps its slot and type and holds absent. -/
 def Stack.unset : Stack → String → Stack
   | [], _ => []
@@ -818,6 +822,7 @@ def minmax (isMax : Bool) (args : List DV) : Res DV := do
 /-! ### emit: splitting nested maps by names -/
 
 def emitRec (r : Fields) : M Unit := modify fun s => { s with out := s.out ++ [.record r] }
+def emitRecs (rs : List Fields) : M Unit := modify fun s => { s with out := s.out ++ rs.map .record }
 def emitLine (b : Bytes) : M Unit := modify fun s => { s with out := s.out ++ [.line b] }
 
 /-- `emit @v` with no names (non-lashed): a map of terminals is one record; a nested map is
@@ -868,6 +873,38 @@ def emitIndexed (names : List Bytes) (templ : Fields) (name : Bytes) (m : Fields
       match v with
       | .map sub => emitPIndexed ixs r name sub
       | v => [mput r name v]
+
+/-- Run `m` on a stack entered from the current one and LEAVE it again on every exit, an error
+included (Go: `Push…(); defer Pop…()`): what was pushed for `m` never outlives it. -/
+def withStack {α} (enter : Stack → Stack) (leave : Stack → Stack → Stack) (m : M α) : M α := do
+  let saved := (← get).stack
+  modify fun s => { s with stack := enter saved }
+  tryCatch
+    (do let a ← m
+        modify fun s => { s with stack := leave saved s.stack }
+        pure a)
+    (fun e => do
+      modify fun s => { s with stack := leave saved s.stack }
+      throw e)
+
+/-- A new innermost frame for the duration of `m` (a braced block, the binding frame of a loop). -/
+def inNewFrame {α} (m : M α) : M α := withStack (fun st => [] :: st) (fun _ cur => cur.drop 1) m
+
+/-- The frames of a call: a named function (or subroutine) runs on a frame set of its own - the
+caller's locals are out of reach and come back untouched; a function literal on a new frame on top of
+the caller's - it sees the enclosing locals. -/
+def inCall {α} (isLit : Bool) (frame : Frame) (m : M α) : M α :=
+  withStack (fun saved => if isLit then frame :: saved else [frame]) (fun saved cur => if isLit then cur.drop 1 else saved) m
+
+/-- The value of a function body: what it returns (absent if it returns nothing); an error RAISED by one
+of its statements ends the call, whose value is then an error value. -/
+def bodyValue (blk : M Sig) : M DV :=
+  tryCatch
+    (do let sig ← blk
+        pure (match sig with | .ret (some v) => v | _ => absent))
+    (fun e => match e with | .raise => pure error | e => throw e)
+
+def andThen {α β} (a : M α) (b : M β) : M β := do let _ ← a; b
 
 /-- The (key, value) entries a loop iterates over: a map's, or an array's with 1-up indices. -/
 def entriesOf : DV → Option (List (DV × DV))
@@ -1084,17 +1121,10 @@ mutual
       let some d := def? | failM .fatal
       if d.params.length != args.length then failM .fatal
       if !(d.params.zip args).all (fun (pt, a) => pt.2.admits a) then failM .fatal
-      let saved := (← get).stack
       let frame : Frame := (d.params.zip args).map fun (pt, a) => { name := pt.1, ty := pt.2, val := a }
       -- duplicate parameter names: redefinition in one scope
       if (d.params.map (·.1)).eraseDups.length != d.params.length then failM .fatal
-      modify fun s => { s with stack := if d.isLit then frame :: saved else [frame] }
-      -- an error raised by a statement of the body ends the call: its value is an error value
-      let rv : DV ← tryCatch
-        (do let sig ← execBlock p fuel d.body
-            pure (match sig with | .ret (some v) => v | _ => absent))
-        (fun e => match e with | .raise => pure error | e => throw e)
-      modify fun s => { s with stack := if d.isLit then s.stack.drop (s.stack.length - saved.length) else saved }
+      let rv : DV ← inCall d.isLit frame (bodyValue (execBlock p fuel d.body))
       if !d.ret.admits rv then failM .fatal
       pure rv
 
@@ -1212,11 +1242,7 @@ mutual
   /-- A braced block: its own frame, popped on every exit. -/
   def execBlock (p : Prog) : Nat → List Stmt → M Sig
     | 0, _ => failM .fuel
-    | fuel + 1, body => do
-      modify fun s => { s with stack := [] :: s.stack }
-      let sig ← execStmts p fuel body
-      modify fun s => { s with stack := s.stack.drop 1 }
-      pure sig
+    | fuel + 1, body => inNewFrame (execStmts p fuel body)
 
   def execStmts (p : Prog) : Nat → List Stmt → M Sig
     | 0, _ => failM .fuel
@@ -1314,9 +1340,9 @@ mutual
           set { s with stack := st }
         | idx :: _ => do
           -- a variable that does not exist yet is created as a map, if the leading index is a string or an int
-          let cur ← (match s.stack.lookup n with
+          let cur ← liftR (match s.stack.lookup n with
             | some b => pure b.val
-            | none => if strictKey idx then pure (DV.map []) else failM .raise)
+            | none => if strictKey idx then pure (DV.map []) else throw .raise)
           let nv ← liftR (putPath cur path v)
           let st ← liftR (s.stack.assign n nv)
           set { s with stack := st }
@@ -1435,8 +1461,8 @@ mutual
     | _ + 1, _, _, [], _ => pure .normal
     | fuel + 1, k, v, (kv, vv) :: rest, body => do
       let s ← get
-      let st1 ← liftR (match k with | some k => s.stack.setAtScope k kv | none => pure s.stack)
-      let st2 ← liftR (match v with | some v => Stack.setAtScope st1 v vv | none => pure st1)
+      let st1 ← liftR (Stack.setOpt s.stack k kv)
+      let st2 ← liftR (Stack.setOpt st1 v vv)
       set { s with stack := st2 }
       match ← execBlock p fuel body with
       | .brk => pure .normal
@@ -1449,35 +1475,45 @@ mutual
     | 0, _, _, _, _, _ => failM .fuel
     | _ + 1, _, _, _, [], _ => pure .normal
     | fuel + 1, ks, v, keysSoFar, (k, val) :: rest, body => do
-      let here := keysSoFar ++ [k]
-      let sig ← (
-        if here.length == ks.length then do
-          let s ← get
-          let st1 ← liftR ((ks.zip here).foldlM (fun (st : Stack) (kn, kv) => st.setAtScope kn kv) s.stack)
-          let st2 ← liftR (Stack.setAtScope st1 v val)
-          set { s with stack := st2 }
-          execBlock p fuel body
-        else
-          match entriesOf val with
-          | some sub => execForMulti p fuel ks v here sub body
-          | none => pure Sig.normal)
+      let sig ← forMultiOne p fuel ks v (keysSoFar ++ [k]) val body
       match sig with
       | .brk => pure .brk
       | .ret r => pure (.ret r)
       | _ => execForMulti p fuel ks v keysSoFar rest body
 
+  /-- One entry of a multi-key loop, with the keys met so far: deep enough - bind and run the body;
+  otherwise descend. -/
+  def forMultiOne (p : Prog) : Nat → List String → String → List DV → DV → List Stmt → M Sig
+    | 0, _, _, _, _, _ => failM .fuel
+    | fuel + 1, ks, v, here, val, body =>
+      if here.length == ks.length then do
+        let s ← get
+        let st1 ← liftR ((ks.zip here).foldlM (fun (st : Stack) (kn, kv) => st.setAtScope kn kv) s.stack)
+        let st2 ← liftR (Stack.setAtScope st1 v val)
+        set { s with stack := st2 }
+        execBlock p fuel body
+      else
+        match entriesOf val with
+        | some sub => execForMulti p fuel ks v here sub body
+        | none => pure Sig.normal
+
+  /-- The continuation test of a triple-for: statements, the last of which (a bare boolean) decides. -/
+  def forCGo (p : Prog) : Nat → List Stmt → M Bool
+    | 0, _ => failM .fuel
+    | fuel + 1, cond =>
+      match cond.reverse with
+      | [] => pure true
+      | .bare c :: pre => do
+        let _ ← execStmts p fuel pre.reverse
+        match ← eval p fuel c with
+        | .s (.bool b) => pure b
+        | _ => failM .raise
+      | _ => failM .raise
+
   def execForC (p : Prog) : Nat → List Stmt → List Stmt → List Stmt → M Sig
     | 0, _, _, _ => failM .fuel
     | fuel + 1, cond, upd, body => do
-      -- the continuation: statements, the last of which (a bare boolean) decides
-      let go ← (match cond.reverse with
-        | [] => pure true
-        | .bare c :: pre => do
-          let _ ← execStmts p fuel pre.reverse
-          match ← eval p fuel c with
-          | .s (.bool b) => pure b
-          | _ => failM .raise
-        | _ => failM .raise)
+      let go ← forCGo p fuel cond
       if !go then pure .normal
       else
         match ← execBlock p fuel body with
@@ -1526,10 +1562,7 @@ mutual
         match entries with
         | none => pure .normal
         | some es => do
-          modify fun s => { s with stack := [] :: s.stack }
-          let sig ← execForKV p fuel (some k) none es body
-          modify fun s => { s with stack := s.stack.drop 1 }
-          pure sig
+          inNewFrame (execForKV p fuel (some k) none es body)
       | .forKV k v e body => do
         let ev ← eval p fuel e
         let entries : Option (List (DV × DV)) := match ev with
@@ -1539,24 +1572,15 @@ mutual
         match entries with
         | none => pure .normal
         | some es => do
-          modify fun s => { s with stack := [] :: s.stack }
-          let sig ← execForKV p fuel (some k) (some v) es body
-          modify fun s => { s with stack := s.stack.drop 1 }
-          pure sig
+          inNewFrame (execForKV p fuel (some k) (some v) es body)
       | .forMulti ks v e body => do
         match entriesOf (← eval p fuel e) with
         | some kvs => do
-          modify fun s => { s with stack := [] :: s.stack }
-          let sig ← execForMulti p fuel ks v [] kvs body
-          modify fun s => { s with stack := s.stack.drop 1 }
+          let sig ← inNewFrame (execForMulti p fuel ks v [] kvs body)
           pure (match sig with | .brk => .normal | .cont => .normal | x => x)
         | none => pure .normal
       | .forC init cond upd body => do
-        modify fun s => { s with stack := [] :: s.stack }
-        let _ ← execStmts p fuel init
-        let sig ← execForC p fuel cond upd body
-        modify fun s => { s with stack := s.stack.drop 1 }
-        pure sig
+        inNewFrame (andThen (execStmts p fuel init) (execForC p fuel cond upd body))
       | .brk => pure .brk
       | .cont => pure .cont
       | .cond c body => do
@@ -1574,11 +1598,8 @@ mutual
         if d.params.length != vs.length then failM .raise
         if !(d.params.zip vs).all (fun (pt, a) => pt.2.admits a) then failM .raise
         if (d.params.map (·.1)).eraseDups.length != d.params.length then failM .raise
-        let saved := (← get).stack
         let frame : Frame := (d.params.zip vs).map fun (pt, a) => { name := pt.1, ty := pt.2, val := a }
-        modify fun s => { s with stack := [frame] }
-        let _ ← execBlock p fuel d.body
-        modify fun s => { s with stack := saved }
+        let _ ← inCall false frame (execBlock p fuel d.body)
         pure .normal
       | .print nl args => do
         let vs ← evalList p fuel args
@@ -1624,16 +1645,16 @@ mutual
           | some nvs =>
             if ns.isEmpty then do
               let recs := if isP then emitPNonIndexed nvs else emitNonIndexed (depthDV v + 3) nvs
-              for r in recs do emitRec r
+              emitRecs recs
               pure .normal
             else if nvs.any (fun nv => !nv.2.isMap) then pure .normal      -- a non-map among them: nothing is emitted
             else if ns.any (fun n => n.isAbsent || n.isError) then pure .normal
             else do
               let nb ← liftR (ns.mapM fun n => match n with | .s sv => scalarText sv | _ => throw (.unmodelled "emit name"))
-              for (n, sub) in nvs do
+              emitRecs (nvs.flatMap fun (n, sub) =>
                 match sub with
-                | .map m => for r in (if isP then emitPIndexed nb [] n m else emitIndexed nb [] n m) do emitRec r
-                | _ => pure ()
+                | .map m => if isP then emitPIndexed nb [] n m else emitIndexed nb [] n m
+                | _ => [])
               pure .normal
         | _ => failM (.unmodelled "emit of several emittables")
       | .filter e => do
